@@ -463,3 +463,15 @@ def run(ctx):
 
     with ctx.rule("C06.R8", "T5", "named arguments are passed in their parameters' positions (no two flags or ids change places at a call site)", floor=10) as r:
         named_argument_rule(ctx, r, [("swimos_agent", "swimos_agent::agent_model::"), ("swimos_agent", "swimos_agent::event_handler"), ("swimos_agent", "swimos_agent::agent_lifecycle")], allow={})
+
+    with ctx.rule("C06.R10", "T5", "a completed write runs the lane's handlers exactly when the lane asked for it (write-back table, shared with C01.R3)", floor=6) as r:
+        # `each state change triggers its handlers exactly once`: the only other root of a handler cascade is the completion of a lane write, and only
+        # for WriteResult::RequiresEvent; a write that is merely continued (DataStillAvailable) or finished (Done) must not start one
+        from rules.C01 import write_back_table
+        ag_ = ctx.crate("swimos_agent")
+        cl = [b for b in ag_.all_bodies() if "run_agent::{closure#0}::{closure" in b.defpath and any(c.via_name == "write_event" for c in b.calls)]
+        if len(cl) != 1:
+            raise AnchorMissing("run_agent: the dirty_items.retain closure was not found")
+        b = ctx.saw(cl[0])
+        we = [c for c in b.calls if c.via_name == "write_event"]
+        write_back_table(r, b, we[0])
